@@ -671,6 +671,41 @@ func (c *Ctx) RunKnownWitnesses() {
 	}
 }
 
+// RunRegressions evaluates the saved inputs under regressions/<property>/ (minimised
+// failures of defects that were repaired, and hand-written boundary inputs). They bypass
+// the generators: a saved input that fails again is a violation like any other.
+func (c *Ctx) RunRegressions() {
+	dir := filepath.Join(VerifDir(), "regressions", c.P.Property)
+	ents, err := os.ReadDir(dir)
+	if err != nil {
+		return
+	}
+	names := []string{}
+	for _, e := range ents {
+		if strings.HasSuffix(e.Name(), ".json") {
+			names = append(names, e.Name())
+		}
+	}
+	sort.Strings(names)
+	for i, n := range names {
+		if !c.Mine(i) {
+			continue
+		}
+		b, err := os.ReadFile(filepath.Join(dir, n))
+		if err != nil {
+			continue
+		}
+		var rf replayFile
+		if json.Unmarshal(b, &rf) != nil || c.kinds[rf.Kind] == nil {
+			c.Inconclusive("regression file " + n + " cannot be used")
+			continue
+		}
+		raw := rf.Case
+		c.Note("saved_regression_inputs", "kind="+rf.Kind, true, Hash(raw), func() any { return map[string]any{"file": n, "case": raw} })
+		c.Enum("saved_regression_inputs/"+n, rf.Kind, raw, nil)
+	}
+}
+
 // Replay runs a replay file; returns the failure (nil if the case passes now).
 func (c *Ctx) Replay(path string) error {
 	b, err := os.ReadFile(path)
@@ -740,6 +775,7 @@ func Main(t *testing.T, property string, setup func(c *Ctx), run func(c *Ctx)) {
 		return
 	}
 	c.RunKnownWitnesses()
+	c.RunRegressions()
 	run(c)
 	c.Finish()
 }
